@@ -137,7 +137,7 @@ func leanStr(s string) string {
 // method name -> Lean function applied to (receiver, args...)
 var methodMap = map[string]string{
 	"Add": "Go.tAdd", "Sub": "Go.tSub", "Round": "Go.tRound", "Before": "Go.tBefore", "After": "Go.tAfter",
-	"IsZero": "Go.tIsZero", "AsTime": "Go.asTime", "Unix": "Go.tToUnix",
+	"IsZero": "Go.tIsZero", "AsTime": "Go.asTime", "Unix": "Go.tToUnix", "Seconds": "Go.dSeconds",
 }
 
 // methods that are the identity in the model
@@ -343,7 +343,7 @@ func (t *tr) call(c *ast.CallExpr) string {
 		return "now"
 	case "len":
 		return "(Go.len " + t.expr(c.Args[0]) + ")"
-	case "string", "jose.SignatureAlgorithm", "[]byte", "oidc.GrantType", "oidc.ResponseType", "int", "int64", "time.Duration", "oidc.Time", "Time":
+	case "string", "jose.SignatureAlgorithm", "[]byte", "oidc.GrantType", "oidc.ResponseType", "int", "int64", "uint64", "time.Duration", "oidc.Time", "Time":
 		if len(c.Args) == 1 {
 			return t.expr(c.Args[0])
 		}
@@ -601,7 +601,32 @@ func (t *tr) block(stmts []ast.Stmt, k cont) string {
 	case *ast.ReturnStmt:
 		return t.ret(x)
 	case *ast.DeclStmt:
-		return rest()
+		// var x T   ->   let x := <zero value>   (only for types whose zero value the model knows)
+		out := ""
+		if gd, ok := x.Decl.(*ast.GenDecl); ok {
+			for _, sp := range gd.Specs {
+				vs, ok := sp.(*ast.ValueSpec)
+				if !ok || len(vs.Values) != 0 || vs.Type == nil {
+					continue
+				}
+				zero := ""
+				switch exprString(vs.Type) {
+				case "string":
+					zero = "(\"\" : String)"
+				case "time.Duration", "int", "int64", "uint64":
+					zero = "(0 : Int)"
+				case "bool":
+					zero = "false"
+				}
+				if zero == "" {
+					continue
+				}
+				for _, n := range vs.Names {
+					out += "let " + t.ident(n.Name) + " := " + zero + ";\n" + t.pad()
+				}
+			}
+		}
+		return out + rest()
 	case *ast.DeferStmt:
 		if ignorableCall(x.Call) {
 			return rest()
